@@ -220,7 +220,7 @@ func runCheck(repo, root, prop, tier string, seed int) *CheckResult {
 			take := hasProp(o.Props, prop)
 			if !take && hasP {
 				switch o.Kind {
-				case "invariant-init", "invariant-preserve", "decreases", "frame", "assert":
+				case "invariant-init", "invariant-preserve", "decreases", "frame", "assert", "guard":
 					take = true
 				case "requires":
 					take = !hasProp(o.Props, "C13") && !hasProp(o.Props, "C19")
